@@ -421,6 +421,13 @@ where
         t * b + (1. - t) * a
     }
 
+    /// Mean of a centroid as seen by `quantile` and `cdf`: `sum / count` can leave `[min, max]` by
+    /// an ulp due to rounding (e.g. a single sample `x` with weight 3 stores `x * 3` and reads back
+    /// `x * 3 / 3 > x`), so it is clamped into the range of the data.
+    fn clamped_mean(&self, c: &Centroid) -> f64 {
+        c.mean().max(self.min).min(self.max)
+    }
+
     fn quantile(&self, q: f64) -> f64 {
         // empty case
         if self.centroids.is_empty() {
@@ -434,7 +441,7 @@ where
         let c_first = &self.centroids[0];
         if limit <= c_first.count * 0.5 {
             let t = limit / (0.5 * c_first.count);
-            return Self::interpolate(self.min, c_first.mean(), t);
+            return Self::interpolate(self.min, self.clamped_mean(c_first), t);
         }
 
         let mut cum = 0.;
@@ -446,7 +453,7 @@ where
                 cum -= 0.5 * c_last.count;
                 let delta = 0.5 * (c_last.count + c.count);
                 let t = (limit - cum) / delta;
-                return Self::interpolate(c_last.mean(), c.mean(), t);
+                return Self::interpolate(self.clamped_mean(c_last), self.clamped_mean(c), t);
             }
             cum += c.count;
         }
@@ -456,7 +463,7 @@ where
         cum -= 0.5 * c_last.count;
         let delta = 0.5 * c_last.count;
         let t = (limit - cum) / delta;
-        Self::interpolate(c_last.mean(), self.max, t)
+        Self::interpolate(self.clamped_mean(c_last), self.max, t)
     }
 
     fn cdf(&self, x: f64) -> f64 {
@@ -475,14 +482,15 @@ where
         let mut last_cum = 0.;
         for c in &self.centroids {
             let current_cum = cum + 0.5 * c.count;
-            if x < c.mean() {
-                let delta = c.mean() - last_mean;
+            let mean = self.clamped_mean(c);
+            if x < mean {
+                let delta = mean - last_mean;
                 let t = (x - last_mean) / delta;
                 return Self::interpolate(last_cum, current_cum, t) / s;
             }
             last_cum = current_cum;
             cum += c.count;
-            last_mean = c.mean();
+            last_mean = mean;
         }
 
         if x < self.max {
